@@ -388,7 +388,7 @@ pub fn concretise(s: &Shader) -> String {
                 attrs.push_str("@invariant ");
             }
             if has("interpolate") && !vertex_input && matches!(&m.io, Some(Io::Loc { blend: false, .. })) && !is_int(&m.ty) && matches!(&m.ty, Ty::Scalar { .. } | Ty::Vec { .. }) {
-                attrs.push_str(["@interpolate(linear) ", "@interpolate(perspective, sample) ", "@interpolate(perspective, centroid) ", "@interpolate(flat) "][mi % 4]);
+                attrs.push_str(["@interpolate(linear) ", "@interpolate(perspective) ", "@interpolate(perspective, centroid) ", "@interpolate(flat) ", "@interpolate(linear, center) "][mi % 5]);
             }
             if let Some(a) = m.align {
                 let _ = write!(attrs, "@align({a}) ");
